@@ -5,6 +5,9 @@ class RewriteAssignEqualVisitor(Visitor.DefaultVisitor):
     """Translate a <op-equal> b to a = a <op> b."""
 
     def v_AssignmentExpression(self, node, ctx=None):
+        # Rewrite the operands first, they may contain assignments as well
+        node.AcceptVisitor(self, ctx)
+
         operation = node.GetOperation()
         if operation == op.Operation.ASSIGN:
             return node
